@@ -1,0 +1,11 @@
+//go:build verif
+
+package pool
+
+import "github.com/platinummonkey/go-concurrency-limits/core"
+
+// VerifLimiter exposes the limiter a pool is built on (verification harness only).
+func (p *FixedPool) VerifLimiter() core.Limiter { return p.limiter }
+
+// VerifLimiter exposes the limiter a pool is built on (verification harness only).
+func (p *Pool) VerifLimiter() core.Limiter { return p.limiter }
